@@ -188,7 +188,25 @@ def r2(ctx):
         mine = [h for h in hits if h[0] == o or h[0].startswith(o)]
         if not mine:
             ctx.ok(o, 'never written by a function body')
+    def immutable_elements(g):
+        """the module-level object is a literal container whose elements are all immutable constants: nothing can be
+        written *through* one of its elements."""
+        mod, _, name = g.rpartition('.')
+        mi = m.modules.get(mod)
+        if mi is None or name not in mi.assigns or len(mi.assigns[name]) != 1:
+            return False
+        v = mi.assigns[name][0].value
+
+        def const(e):
+            return isinstance(e, ast.Constant) or (isinstance(e, ast.Tuple) and all(const(x) for x in e.elts))
+        if isinstance(v, ast.Dict):
+            return all(const(x) for x in v.values)
+        if isinstance(v, (ast.List, ast.Tuple, ast.Set)):
+            return all(const(x) for x in v.elts)
+        return False
     for (g, fn, st), ev in sorted(hits.items()):
+        if len(ev.target) > 2 and ev.target[2] and immutable_elements(g) and ev.via.startswith('augmented'):
+            continue      # `x op= y` on a string/number taken from a constant table rebinds the local name
         ctx.bad(fn.split(':')[1], f'global:{g.split(".")[-1]}:{st[:70]}',
                 f'`{ev.stmt}` ({ev.via}) writes the module/class-level object {g}: later calls see the change',
                 f'{ev.path}:{fn.split(":")[1]}:{ev.line}')
